@@ -70,7 +70,6 @@ func ext۰reflect۰rtype۰Elem(fr *frame, args []value) value {
 	}).Elem()})
 }
 
-
 func ext۰reflect۰rtype۰In(fr *frame, args []value) value {
 	// Signature: func (t reflect.rtype, i int) int
 	i := args[1].(int)
@@ -118,7 +117,6 @@ func ext۰reflect۰rtype۰String(fr *frame, args []value) value {
 	return args[0].(rtype).t.String()
 }
 
-
 func ext۰reflect۰SliceOf(fr *frame, args []value) value {
 	// Signature: func (t reflect.rtype) Type
 	return makeReflectType(rtype{types.NewSlice(args[0].(iface).v.(rtype).t)})
@@ -128,8 +126,6 @@ func ext۰reflect۰TypeOf(fr *frame, args []value) value {
 	// Signature: func (t reflect.rtype) Type
 	return makeReflectType(rtype{args[0].(iface).t})
 }
-
-
 
 func reflectKind(t types.Type) reflect.Kind {
 	switch t := t.(type) {
@@ -193,29 +189,6 @@ func reflectKind(t types.Type) reflect.Kind {
 	}
 	panic(fmt.Sprint("unexpected type: ", t))
 }
-
-
-
-
-
-
-
-
-
-
-
-
-
-
-
-
-
-
-
-
-
-
-
 
 func ext۰reflect۰error۰Error(fr *frame, args []value) value {
 	return args[0]
